@@ -68,7 +68,7 @@ theorem recv_returns_head (progs : List (List Op)) (s : State) (tid : Nat) (k : 
   cases hq : s.msgs k with
   | nil => exact absurd hq hne
   | cons m q =>
-    let S : State := { s with msgs := upd s.msgs k q, delivered := upd s.delivered k (s.delivered k ++ [m]), lock := none }
+    let S : State := { s with msgs := upd s.msgs k q, delivered := upd s.delivered k (s.delivered k ++ [m]), popped := upd s.popped k (s.popped k ++ [m]), lock := none }
     have hs : step s tid = some (setThread S tid (advance tid (s.threads tid) (.got k m))) := by
       unfold step; simp only [hpc, hq, S]
     exact ⟨m, q, _, rfl, hs, by simp [upd, S], by simp [upd, S], by simp⟩
@@ -219,6 +219,88 @@ theorem callback_inv (progs : List (List Op)) (s : State) (k : Key)
     | step s s' tid _ hs ih => exact cbInv_step k s s' tid ih hs
   exact ⟨this.seq.1.symm, by rw [this.seq.2, this.seq.1], this.emp⟩
 
+def lastState (s : State) (l : List (State × Bool)) : State := (l.getLast?.map (·.1)).getD s
+
+/-! ### Keys of ANY history: callback and plain incarnations, disconnects, reconnects
+
+For a key that alternates between callback and plain incarnations the GLOBAL identity
+`sent = delivered ++ queue` is false of the code (`mixed_key_not_globally_fifo`): a message queued for an
+incarnation that closed without receiving it stays in `_messages[key]`; a later CALLBACK incarnation never
+sees it (its callback gets only what is sent from then on), a later PLAIN incarnation pops it first.
+What is true for every program is the statement per delivery path (`queue_path_fifo`, `paths_partition`) plus
+the fact that the path a message takes is the one of the incarnation that is open (`callback_matches_incarnation`,
+`send_path_matches_incarnation`) — the last one is what a `disconnect` that forgets to unregister would break. -/
+
+/-- the queue path of EVERY key under EVERY program: what was appended = what was popped ++ what is queued;
+and the owner's `recv` results are exactly the popped sequence (exactly once, FIFO, across reconnects) -/
+theorem queue_path_fifo (progs : List (List Op)) (s : State) (k : Key) (h : Reachable progs s) :
+    s.queued k = s.popped k ++ s.msgs k ∧ gotOf k (s.threads k.1).res = s.popped k := by
+  induction h with
+  | init =>
+    refine ⟨rfl, ?_⟩
+    show gotOf k (startThread k.1 (progs.getD k.1 [])).res = []
+    unfold startThread; split <;> rfl
+  | step s s' tid hr hs ih =>
+    exact queue_step k s s' tid (baseInv_reachable progs s hr).own ih.1 ih.2 hs
+
+/-- every sent message went to exactly one of the two paths, each path keeps the sending order -/
+theorem paths_partition (progs : List (List Op)) (s : State) (k : Key) (h : Reachable progs s) :
+    Shuffle (s.queued k) (s.cbStore k) (s.sent k) := by
+  induction h with
+  | init => exact Shuffle.nil
+  | step s s' tid _ hs ih => exact shuffle_step k s s' tid ih hs
+
+/-- `callback_matches_incarnation`: for a key whose owner never connects it twice without a disconnect in
+between (any number of incarnations, callback or plain in any order, disconnect at any time): whenever the
+key is visible in `_open_sockets`, a recv callback is registered for it IF AND ONLY IF the incarnation that
+published it uses callbacks. -/
+theorem callback_matches_incarnation (progs : List (List Op)) (s : State) (k : Key) (h : Reachable progs s)
+    (hk : LifeOk k.1 k false (progs.getD k.1 [])) :
+    ModeInv k s ∧ (s.open_ k = true → s.recvCbs k = s.cbMode k) := by
+  have : ModeInv k s := by
+    induction h with
+    | init => exact modeInv_init k progs hk
+    | step s s' tid hr hs ih => exact modeInv_step k s s' tid (baseInv_reachable progs s hr).own ih hs
+  exact ⟨this, this.mode⟩
+
+/-- a `send` that looks up the callback while the receiving key is open takes the callback path exactly when
+the open incarnation is a callback socket, and the queue path exactly when it is plain -/
+theorem send_path_matches_incarnation (progs : List (List Op)) (s : State) (tid : Nat) (k0 : Key) (m : Msg)
+    (h : Reachable progs s) (hk : LifeOk (rkey k0).1 (rkey k0) false (progs.getD (rkey k0).1 []))
+    (hpc : (s.threads tid).pc = .sCb k0 m) (hopen : s.open_ (rkey k0) = true) :
+    ∃ s', step s tid = some s' ∧
+      (s'.threads tid).pc = (if s.cbMode (rkey k0) then .sCall k0 m else .sLock k0 m) := by
+  have hm := (callback_matches_incarnation progs s (rkey k0) h hk).2 hopen
+  cases hc : s.cbMode (rkey k0) with
+  | true =>
+    rw [hc] at hm
+    have hs : step s tid = some (setThread s tid (goto (s.threads tid) (.sCall k0 m))) := by
+      unfold step; simp only [hpc, hm, if_true]
+    exact ⟨_, hs, by simp⟩
+  | false =>
+    rw [hc] at hm
+    have hs : step s tid = some (setThread s tid (goto (s.threads tid) (.sLock k0 m))) := by
+      unfold step; simp only [hpc, hm, Bool.false_eq_true, if_false]
+    exact ⟨_, hs, by simp⟩
+
+def mixedProgs : List (List Op) :=
+  [[.connect 1 0 false, .send 1 0 1, .send 1 0 2],
+   [.connect 0 0 false, .disconnect 0 0, .connect 0 0 true]]
+
+/-- the global identity fails for a key that is first plain, then (after a disconnect) a callback socket:
+m1 was queued for the plain incarnation, which closed without receiving it; m2 reaches the callback of the
+second incarnation; `sent = [1, 2]`, `delivered = [2]`, queue `[1]`.  (Lock-step checked on the real hub.) -/
+theorem mixed_key_not_globally_fifo :
+    let run := runSched (init mixedProgs)
+      [0, 0, 1, 1, 1, 0, 0, 0, 0, 0, 1, 1, 1, 1, 1, 1, 1, 1, 1, 1, 1, 1, 1, 0, 0, 0]
+    let s := lastState (init mixedProgs) run
+    run.all (·.2) = true ∧ s.sent (1, 0, 0) = [1, 2] ∧ s.delivered (1, 0, 0) = [2] ∧ s.msgs (1, 0, 0) = [1] ∧
+    s.cbStore (1, 0, 0) = [2] ∧ s.sent (1, 0, 0) ≠ s.delivered (1, 0, 0) ++ s.msgs (1, 0, 0) := by decide
+
+/-- these programs satisfy the hypothesis of `callback_matches_incarnation` for the alternating key -/
+example : LifeOk 1 (1, 0, 0) false (mixedProgs.getD 1 []) := by
+  simp [mixedProgs, LifeOk]
+
 /-! ### The F20 schedule on the model of the fixed code, and non-vacuity -/
 
 def f20Progs : List (List Op) :=
@@ -227,7 +309,6 @@ def f20Progs : List (List Op) :=
 /-- the schedule shape of F20 (B starts connecting, A connects and sends m1, B goes on, A sends m2) -/
 def f20Sched : List Nat := [1, 1, 1, 0, 0, 0, 0, 0, 0, 1, 1, 0, 0, 0]
 
-def lastState (s : State) (l : List (State × Bool)) : State := (l.getLast?.map (·.1)).getD s
 
 /-- on the fixed code both messages reach the callback, in order, and nothing is queued -/
 theorem f20_schedule_fixed :
